@@ -132,6 +132,7 @@ class Recorder:
         self.anomalies = []
         self.bcounts = set()
         self.order_sensitive = set()
+        self.lri_calls = []
         self.orig = {}
 
     def vid(self, v):
@@ -223,6 +224,18 @@ class Recorder:
                 R.depth -= 1
                 R.stack.pop()
 
+        import qclib.state_preparation.baa_lowrank as bl
+        R.bl = bl
+        R.orig_lri = bl.LowRankInitialize
+
+        def w_lri(params, *a, **k):
+            # the options each factor of the plan is handed (snapshot at call time + the instance, whose attributes are read
+            # again after the whole definition has been assembled)
+            opts = k.get("opt_params", a[1] if len(a) > 1 else None)
+            inst = R.orig_lri(params, *a, **k)
+            R.lri_calls.append((np.array(params, dtype=complex).reshape(-1), None if opts is None else dict(opts), inst))
+            return inst
+        bl.LowRankInitialize = w_lri
         baa._reduce_entanglement = w_reduce
         baa.schmidt_decomposition = w_schmidt
         baa.schmidt_cnots = w_cnots
@@ -233,6 +246,7 @@ class Recorder:
     def __exit__(self, *exc):
         for nm, f in self.orig.items():
             setattr(self.baa, nm, f)
+        self.bl.LowRankInitialize = self.orig_lri
         return False
 
 
@@ -382,6 +396,42 @@ def run_case(c):
             res["counts"].append("boundary:inner-register-set-order-differs-from-sorted")
         else:
             res["counts"].append("boundary:set-order-ascending-throughout(insensitive)")
+    # ---- the options every factor of the plan was handed (baa_lowrank.py:139-149): ITS OWN rank / bipartition or none ----
+    exp_iso = c["iso"] if form == "schemes" else "ccd"
+    exp_uni = c["uni"] if form == "schemes" else "qsd"
+    probs = []
+    if len(R.lri_calls) != len(node.vectors):
+        probs.append(f"{len(R.lri_calls)} LowRankInitialize calls for {len(node.vectors)} factors")
+    for j, ((pv, opts, inst), fv, rank, part) in enumerate(zip(R.lri_calls, node.vectors, node.ranks, node.partitions)):
+        opts = opts or {}
+        fv = np.asarray(fv, dtype=complex).reshape(-1)
+        if pv.shape != fv.shape or np.abs(pv - fv).max() > 0:
+            probs.append(f"factor {j}: another vector was handed over")
+        want_p = None if part is None else [int(x) for x in part]
+        for tag, got_p, got_lr in (("at the call", opts.get("partition"), opts.get("lr")),
+                                   ("on the gate after assembly", inst.partition, inst.low_rank)):
+            got_p = None if got_p is None else [int(x) for x in got_p]
+            if got_p != want_p:
+                probs.append(f"factor {j} (qubits {node.qubits[j]}): partition {got_p} {tag}, plan says {want_p}")
+            ok_lr = (got_lr == rank) or (part is None and got_lr in (None, 0))
+            if not ok_lr:
+                probs.append(f"factor {j} (qubits {node.qubits[j]}): lr {got_lr} {tag}, plan rank {rank}")
+        if (opts.get("iso_scheme") or "ccd") != exp_iso or (opts.get("unitary_scheme") or "qsd") != exp_uni \
+                or inst.isometry_scheme != exp_iso or inst.unitary_scheme != exp_uni:
+            probs.append(f"factor {j}: schemes {opts.get('iso_scheme')}/{opts.get('unitary_scheme')} at the call, "
+                         f"{inst.isometry_scheme}/{inst.unitary_scheme} on the gate, expected {exp_iso}/{exp_uni}")
+    res["checks"].append((case_key("factor-options", c), not probs, "; ".join(probs[:4]) + f" [plan qubits={node.qubits} "
+                          f"ranks={node.ranks} partitions={node.partitions}]", True, rep))
+    lr_pos = [j for j, p in enumerate(node.partitions) if p is not None]
+    if lr_pos:
+        after = [len(q) for q in node.qubits[lr_pos[0] + 1:]]
+        before = [len(q) for q in node.qubits[:lr_pos[-1]]]
+        if any(k >= 2 for k in after):
+            res["counts"].append("boundary:plan:lowrank-leaf-BEFORE-multiqubit-factor")
+        if any(k >= 2 for k in before):
+            res["counts"].append("boundary:plan:lowrank-leaf-AFTER-multiqubit-factor")
+        if len(lr_pos) >= 2:
+            res["counts"].append("boundary:plan:two-lowrank-leaves")
     # ---- oracle ----
     l_eff = c["l"] if 0 <= c["l"] <= 1 else 0.0
     try:
@@ -840,6 +890,49 @@ def gen_boundary_cases(ctx):
         add(n, "straddle8", pairs, 1e-12, pr.choice(["split", "greedy"]), True, 0, f"lay{li}-u",
             [f"boundary:register-straddles-qubit-8:n={n}"], straddle=True)
 
+    # --- (3b) a rank>1 leaf next to untouched multi-qubit factors (baa_lowrank.py:139-149: one option dictionary per factor) ---
+    #     product of A (4 qubits, almost Schmidt rank 2 across its first two qubits: truncation loss t), a single qubit D and
+    #     one or two generic blocks, in several factor orders and interleaved; use_low_rank, budget just above t
+    spec = np.array([0.8, 0.59, 0.08, 0.05])
+    spec = spec / np.linalg.norm(spec)
+    trunc = float(spec[2] ** 2 + spec[3] ** 2)
+
+    def block_a():
+        qa, _ = np.linalg.qr(r.normal(size=(4, 4)) + 1j * r.normal(size=(4, 4)))
+        qb, _ = np.linalg.qr(r.normal(size=(4, 4)) + 1j * r.normal(size=(4, 4)))
+        return ((qa * spec) @ qb).reshape(-1)
+
+    shapes = [(7, "ADC", {"C": 2}), (7, "CAD", {"C": 2}), (8, "ADC", {"C": 3}), (8, "DAC", {"C": 3}), (8, "CDA", {"C": 3}),
+              (8, "AB", {}), (9, "ADC", {"C": 4}), (9, "DAC", {"C": 4}), (9, "CAD", {"C": 4}), (9, "ADCE", {"C": 2, "E": 2})]
+    if not ctx.quick:
+        shapes += [(9, "ACD", {"C": 4}), (9, "CADE", {"C": 2, "E": 2}), (9, "ADB", {})]
+    for si, (n, order, sizes) in enumerate(shapes):
+        size = dict({"A": 4, "B": 4, "D": 1}, **sizes)
+        for variant in ("kron", "interleaved"):
+            qs = list(range(n))
+            if variant == "interleaved":
+                pr.shuffle(qs)
+            groups, pos = [], 0
+            for b in order:
+                groups.append(sorted(qs[pos:pos + size[b]]))
+                pos += size[b]
+            states = [block_a() if b in "AB" else _haar(r, size[b]) for b in order]
+            # with use_low_rank an EXACTLY separable cut yields no candidate at all (one singular value: max_ebits = -1,
+            # baa.py:340-342), so the product is perturbed by 2% noise; the cuts then cost ~eps^2 = 4e-4 in total
+            eps = 0.02
+            vec = _interleave(n, groups, states)
+            vec = vec + eps * _haar(r, n)
+            vec = vec / np.linalg.norm(vec)
+            pairs = _pairs(vec)
+            n_lr = sum(b in "AB" for b in order)
+            # max_combination_size 0 only: with 2 the pair-sized candidates never isolate the 4-qubit block.  (At n = 7 the
+            # plans found keep A exact: a 2-qubit register processed first leaves max_k = 1 for A, baa.py:216.)
+            combos = [("greedy", 0), ("split", 0)]
+            if n <= 8 or (variant == "kron" and order in ("ADC", "DAC")):
+                combos.append(("brute_force", 0))
+            for s, cc in combos:
+                l = 1.0 - (1.0 - 1.3 * trunc) ** n_lr + 1.5 * eps ** 2       # just above the truncation loss of the block(s)
+                add(n, "lrleaf", pairs, l, s, True, cc, f"lrleaf{si}-{order}-{variant[0]}", [f"boundary:lowrank-leaf-family:n={n}"])
     # --- (4) max_combination_size below / at / above len(register)//2  (baa.py:216) ---------------------------
     for n in range(2, 7):
         for c in sorted({max(0, n // 2 - 1), n // 2, n // 2 + 1}):
